@@ -4,7 +4,7 @@ EXTENDS Sampler
 AllModes == {"raise", "drop", "uneven", "ignore"}
 BothKinds == {"random", "seq"}
 NoFeatures == {}
-AllFeatures == {"reconstruct", "get", "full"}
-PathFeatures == {"reconstruct", "get"}
+AllFeatures == {"reconstruct", "get", "full", "abandon"}
+PathFeatures == {"reconstruct", "get", "abandon"}
 FullFeatures == {"full"}
 =============================================================================
